@@ -123,3 +123,20 @@ def _kf_point_to_t(case, bucket, message, details, config):
     if any(s[3] % 360 != 0 for s in arcs):
         return False
     return any(_arc_span_deg(s) < 5.0 for s in arcs)
+
+
+@matcher('arc_very_eccentric_scipy_quad')
+def _kf_arc_ecc(case, bucket, message, details, config):
+    """C06: Arc.length through scipy.integrate.quad for an ellipse of eccentricity (radius ratio) >= 100: the speed varies by
+    that factor over a short stretch and quad's error estimate is off by a few 1e-6 relative (allowed 1e-6)."""
+    if config != 'scipy':
+        return False
+    if not any(bucket.startswith('C06/' + b) for b in ('outside_bracket/A', 'vs_quadrature/A', 'additivity/A')):
+        return False
+    specs = [case['spec']] if case.get('what') == 'seg' else case.get('segs', [])
+    for sp in specs:
+        if sp[0] == 'A':
+            rx, ry = abs(sp[2][0]), abs(sp[2][1])
+            if min(rx, ry) > 0 and max(rx, ry) >= 100 * min(rx, ry):
+                return True
+    return False
